@@ -100,6 +100,20 @@ def _gen_evolve(rng: random.Random, g: dict, cur: MG) -> tuple[list[list], MG]:
                     order.insert(rng.randrange(len(order) + 1), nm)
             steps.append(["b", u, v])
             B.add(frozenset((u, v)))
+    # a node that has just been introduced is usually put to use right away: connect it to another node, so that
+    # questions asked afterwards can depend on it (a memo that missed its arrival then gives a stale answer)
+    fresh = [x for x in sorted(N) if x not in cur.N]
+    if fresh and len(N) > 2 and rng.random() < 0.6:
+        u = rng.choice(fresh)
+        v = rng.choice([x for x in sorted(N) if x != u])
+        if rng.random() < 0.5:
+            steps.append(["b", u, v])
+            B.add(frozenset((u, v)))
+        else:
+            if order is not None and u in order and v in order and order.index(u) > order.index(v):
+                u, v = v, u
+            steps.append(["d", u, v])
+            D.add((u, v))
     return steps, MG(frozenset(N), frozenset(D), frozenset(B))
 
 
@@ -327,6 +341,7 @@ def gen_case_c04(seed: int, s: int, w: int, tier: str) -> dict:
     read_only = tuple(o for o in SURGERY_OPS if o != "intervene")
     rounds = []
     asked4: list[dict] = []
+    recent: dict[int, list] = {}  # nodes that the last edit of graph gi introduced
     for r in range(nrounds):
         scripts: dict[str, list] = {}
         for i in range(K):
@@ -337,7 +352,7 @@ def gen_case_c04(seed: int, s: int, w: int, tier: str) -> dict:
                     old = asked4[rng.randrange(len(asked4))]
                     sp = json.loads(json.dumps(old)) if op_valid(old, cur[old["t"][1]]) else None
                 elif rng.random() < 0.8:
-                    sp = gen_dsep_op(rng, ["g", gi], cur[gi])
+                    sp = gen_dsep_op(rng, ["g", gi], cur[gi], focus=recent.get(gi))
                 else:
                     sp = gen_surgery_op(rng, ["g", gi], cur[gi], ops=read_only)
                 if sp is not None:
@@ -349,7 +364,9 @@ def gen_case_c04(seed: int, s: int, w: int, tier: str) -> dict:
             ev = []
             for gi in range(ngraphs):
                 if rng.random() < 0.7:
+                    before = cur[gi].N
                     steps, cur[gi] = _gen_evolve(rng, graphs[gi], cur[gi])
+                    recent[gi] = sorted(cur[gi].N - before)
                     ev.append([gi, steps])
             rnd["evolve"] = ev
         rounds.append(rnd)
